@@ -295,6 +295,10 @@ impl Builder {
         match idx {
             Some(idx) => {
                 if idx < self.module.functions.len() {
+                    if self.selected_function != Some(idx) {
+                        // A block index is only meaningful within its function.
+                        self.selected_block = None;
+                    }
                     self.selected_function = Some(idx);
                     Ok(())
                 } else {
@@ -382,6 +386,7 @@ impl Builder {
             vec![],
         ));
         self.selected_function = None;
+        self.selected_block = None;
         Ok(())
     }
 
